@@ -140,3 +140,8 @@ e1prop("C05", "Value semantics / aliasing", "C05.json",
        "every aliasing pattern of receiver and operands (distinct, r=a, r=b, a=b, r=a=b) of the adapter methods is executed symbolically; the result must equal the result of the same operation on fresh copies, operands other than the receiver stay unchanged, the receiver is returned; Clone/Set copies are independent of their source under one further mutating call on either object. External libraries are uninterpreted functions with stated read/write contracts (equalities decided in QF_UF); math/big uses a shared-storage model (struct copies share limbs, methods write in place).",
        ["programs: one operation per aliasing pattern (5 patterns x {Add, Sub}) for gnark G1 and kilic GT; Null/Base for kilic G1/G2; residuePoint: {Clone, Set} x {mutate source, mutate copy} x {Null, Add, Set} quick, + {Base, Neg, Sub} thorough"],
        ["the external libraries themselves (contracts are trusted and listed)", "programs longer than copy + one call", "ed25519 point/scalar, vartime points, bn256/bn254 points: aliasing of the formula code is covered by the formula-layer harnesses of C01 where registered"])
+
+e1prop("C20", "Read-only use is race free (sufficient condition)", "C20.json",
+       "effect analysis by symbolic execution: between effectsBegin and effectsEnd every store (incl. the receiver-writes of the math/big model) whose target existed before the call is an obligation 'unreachable on every feasible path'. A read-only method that passes executes no write to shared memory, which implies race freedom and sequential results for concurrent read-only use. A violated obligation is confirmed natively by running two goroutines on one shared value under go test -race.",
+       ["edwards25519vartime projPoint and extPoint: MarshalBinary, String, Data, Equal, Clone, MarshalSize, and use as operand of Add / Neg / Set on a fresh receiver; arbitrary coordinates; one call"],
+       ["the Go scheduler's interleavings are not explored (not needed when the condition holds; not decidable by this technique when it fails: then the race detector run is the confirmation)", "external libraries and their internal caches; pairing evaluation; suites' random streams", "this is a weaker, sequential reading of the property's race-detector wording"])
